@@ -341,10 +341,17 @@ func VerifC17MetadataConcurrent() {
 	var wg sync.WaitGroup
 	wg.Add(P)
 	vc04MaxR, vc04MaxS = 1, 1
+	// either every producer brings a different new group (the limit admits one), or all bring the
+	// SAME not-yet-known group (all must be accepted and nothing may get lost in an orphan shard)
+	sameGroup := vChoice("producers-carry-the-same-new-group", 2) == 1
 	for p := 0; p < P; p++ {
 		p := p
 		ld, _ := vc04BuildLogs(string(rune('a'+p)), &id, 1, false, 0)
-		ctx := client.NewContext(context.Background(), client.Info{Metadata: client.NewMetadata(map[string][]string{"tenant": {string(rune('A' + p))}})})
+		tenant := string(rune('A' + p))
+		if sameGroup {
+			tenant = "A"
+		}
+		ctx := client.NewContext(context.Background(), client.Info{Metadata: client.NewMetadata(map[string][]string{"tenant": {tenant}})})
 		go func() {
 			defer wg.Done()
 			errs[p] = bp.batcher.consume(ctx, ld)
@@ -357,8 +364,12 @@ func VerifC17MetadataConcurrent() {
 			accepted++
 		}
 	}
-	vAssert(accepted <= 1, "metadata-concurrent/cardinality-limit-holds-under-concurrent-arrivals")
-	vAssert(accepted >= 1, "metadata-concurrent/first-group-is-accepted")
+	if sameGroup {
+		vAssert(accepted == P, "metadata-concurrent/every-arrival-of-the-one-group-is-accepted")
+	} else {
+		vAssert(accepted <= 1, "metadata-concurrent/cardinality-limit-holds-under-concurrent-arrivals")
+		vAssert(accepted >= 1, "metadata-concurrent/first-group-is-accepted")
+	}
 	vAssert(mb.currentMetadataCardinality() <= 1, "metadata-concurrent/reported-cardinality-within-limit")
 	vAssert(bp.Shutdown(context.Background()) == nil, "metadata-concurrent/shutdown-ok")
 	groups := map[string]bool{}
@@ -368,5 +379,10 @@ func VerifC17MetadataConcurrent() {
 		}
 	}
 	vAssert(len(groups) <= 1, "metadata-concurrent/at-most-limit-groups-emitted-downstream")
+	emitted := 0
+	for _, b := range sink.batches {
+		emitted += len(b.items)
+	}
+	vAssert(emitted == accepted, "metadata-concurrent/everything-accepted-is-emitted-by-shutdown")
 	vReach("end")
 }
